@@ -211,6 +211,55 @@ def regPrivEnc (R : Registry) : RegLabelPriv → Label
   | .privateUse i => .int i
   | .text t => .text t
 
+/-! ### `cmp_canonical` is a lawful strict total order too (swap and transitivity; `cmp_canonical_eq_iff` is its equality law) -/
+theorem lenLex_swap (a b : Bytes) : lenLex b a = (lenLex a b).swap := by
+  unfold lenLex
+  by_cases hl : a.length < b.length
+  · have h1 : (a.length != b.length) = true := by simp; omega
+    have h2 : (b.length != a.length) = true := by simp; omega
+    simp only [h1, h2, if_true, compare_nat_lt hl, compare_nat_gt hl, Ordering.swap]
+  · by_cases hg : b.length < a.length
+    · have h1 : (a.length != b.length) = true := by simp; omega
+      have h2 : (b.length != a.length) = true := by simp; omega
+      simp only [h1, h2, if_true, compare_nat_lt hg, compare_nat_gt hg, Ordering.swap]
+    · have he : a.length = b.length := by omega
+      simp only [he, bne_self_eq_false, Bool.false_eq_true, if_false]
+      exact lexCmp_swap a b
+
+theorem lenLex_lt_iff (a b : Bytes) : lenLex a b = .lt ↔ (a.length < b.length ∨ (a.length = b.length ∧ lexCmp a b = .lt)) := by
+  unfold lenLex
+  by_cases hl : a.length < b.length
+  · have h1 : (a.length != b.length) = true := by simp; omega
+    simp [h1, compare_nat_lt hl, hl]
+  · by_cases hg : b.length < a.length
+    · have h1 : (a.length != b.length) = true := by simp; omega
+      simp only [h1, if_true, compare_nat_gt hg]
+      constructor
+      · intro h; cases h
+      · intro h; omega
+    · have he : a.length = b.length := by omega
+      simp [he]
+
+theorem lenLex_trans (a b c : Bytes) (h1 : lenLex a b = .lt) (h2 : lenLex b c = .lt) : lenLex a c = .lt := by
+  rw [lenLex_lt_iff] at h1 h2 ⊢
+  rcases h1 with h1 | ⟨e1, l1⟩ <;> rcases h2 with h2 | ⟨e2, l2⟩
+  · left; omega
+  · left; omega
+  · left; omega
+  · right; exact ⟨by omega, lexCmp_trans _ _ _ l1 l2⟩
+
+theorem cmp_canonical_swap (a b : Label) (o : Ordering) (h : Label.cmpCanonical a b = .ok o) :
+    Label.cmpCanonical b a = .ok o.swap := by
+  rw [cmp_canonical_is_lenlex] at h ⊢
+  simp only [Res.ok.injEq] at h ⊢
+  rw [lenLex_swap, h]
+
+theorem cmp_canonical_trans (a b c : Label)
+    (h1 : Label.cmpCanonical a b = .ok .lt) (h2 : Label.cmpCanonical b c = .ok .lt) : Label.cmpCanonical a c = .ok .lt := by
+  rw [cmp_canonical_is_lenlex] at h1 h2 ⊢
+  simp only [Res.ok.injEq] at h1 h2 ⊢
+  exact lenLex_trans _ _ _ h1 h2
+
 theorem registered_cmp (R : Registry) (a b : RegLabel) (ha : ValidLabel (regEnc R a)) (hb : ValidLabel (regEnc R b)) :
     RegLabel.cmp R a b = .ok (lexCmp (encLabel (regEnc R a)) (encLabel (regEnc R b))) := by
   cases a <;> cases b <;> simp only [RegLabel.cmp, regEnc] at *
@@ -243,6 +292,8 @@ example : Label.cmp (.int 23) (.int 24) = .ok .lt ∧ Label.cmp (.int 255) (.int
 #print axioms cmp_trans
 #print axioms cmp_canonical_is_lenlex
 #print axioms cmp_canonical_eq_iff
+#print axioms cmp_canonical_swap
+#print axioms cmp_canonical_trans
 #print axioms registered_cmp
 #print axioms registered_private_cmp
 
